@@ -165,21 +165,67 @@ func runC17(c *Ctx) {
 		if norm == nil {
 			c.viol("C17.R2", key+"|normalises-range", c.pos(apFd.Pos()), "Document.Apply no longer normalises (clamps) the range before using it: positions beyond the line or document end index out of range")
 		} else {
-			okN := len(classifiers) >= 4
-			for _, cl := range classifiers {
-				if !fc.dominates(norm, cl) {
+			// every use of the range in Apply — in a predicate call, an edit primitive or an inline comparison — comes after
+			// the normalisation on every path
+			okN := true
+			nuse := 0
+			ast.Inspect(apFd.Body, func(m ast.Node) bool {
+				if _, isLit := m.(*ast.FuncLit); isLit {
+					return false
+				}
+				id, ok := m.(*ast.Ident)
+				if !ok || info.ObjectOf(id) != rangeParam {
+					return true
+				}
+				if norm.Pos() <= id.Pos() && id.End() <= norm.End() {
+					return true
+				}
+				// `if r == nil { … }` guards before the normalisation do not read the positions
+				nuse++
+				if !fc.dominates(norm, id) {
+					par := enclosingBinary(apFd.Body, id)
+					if par != nil && (par.Op == token.EQL || par.Op == token.NEQ) && (types.ExprString(par.X) == "nil" || types.ExprString(par.Y) == "nil") {
+						return true
+					}
 					okN = false
 				}
-			}
-			c.check(okN, "C17.R2", key+"|normalise-before-classify", c.pos(norm.Pos()), fmt.Sprintf("normalisation dominates %d uses of the range", len(classifiers)),
+				return true
+			})
+			_ = classifiers
+			okN = okN && nuse >= 3
+			c.check(okN, "C17.R2", key+"|normalise-before-classify", c.pos(norm.Pos()), fmt.Sprintf("normalisation dominates %d uses of the range", nuse),
 				"a classification predicate or edit primitive uses the range before it was normalised")
 		}
 	}
 
 	// R2b: a position beyond the last line is clamped to the END of the document: the branch that clamps a line
 	// coordinate also sets the character of that same position
+	// the functions that clamp: methods of Document that assign position fields, and package-local helpers they hand a
+	// position to (a helper called for Start and for End counts once per call site)
+	clampFns := map[*ast.FuncDecl]int{}
 	for _, fd := range allFuncDecls(p) {
 		if fd.Recv == nil || recvTypeName(fd.Recv.List[0].Type) != "Document" || !isRangeMutator(c, p, info.Defs[fd.Name].(*types.Func)) {
+			continue
+		}
+		clampFns[fd] = 1
+		ast.Inspect(fd.Body, func(n ast.Node) bool {
+			if call, ok := n.(*ast.CallExpr); ok {
+				if cal := calleeOf(info, call); cal != nil && cal.Pkg() == p.Types && rangeMutatorDepth(c, cal, 1) {
+					for _, hfd := range allFuncDecls(p) {
+						if info.Defs[hfd.Name] == types.Object(cal) && hfd != fd {
+							clampFns[hfd]++
+							clampFns[fd] = 0 // the clamps live in the helper
+						}
+					}
+				}
+			}
+			return true
+		})
+	}
+	totalClamps := 0
+	for _, fd := range allFuncDecls(p) {
+		mult, isClamp := clampFns[fd]
+		if !isClamp || mult == 0 {
 			continue
 		}
 		nclamp := 0
@@ -231,84 +277,118 @@ func runC17(c *Ctx) {
 				fmt.Sprintf("%s clamps %s.Line with min(…) and therefore cannot tell a line that was past the end from the last line itself: %s.Character stays as sent, so a position beyond the document end (e.g. line = lineCount, character 0, which editors and templ's own formatting edit send) lands at the START of the last line instead of the end of the document", fd.Name.Name, pos, pos))
 			return true
 		})
-		if nclamp < 2 {
-			c.viol("C17.R2", funcKey(p, fd)+"|line-clamps", c.pos(fd.Pos()), fmt.Sprintf("expected the start and the end position to be clamped to the last line, found %d line clamps", nclamp))
-		}
+		totalClamps += nclamp * mult
+	}
+	if totalClamps < 2 {
+		c.viol("C17.R2", modPath+"/cmd/templ/lspcmd/proxy|line-clamps", "", fmt.Sprintf("expected the start and the end position to be clamped to the last line, found %d line clamps", totalClamps))
 	}
 
 	// R3 ------------------------------------------------------------
-	preds := map[string]*ast.FuncDecl{}
-	for _, fd := range allFuncDecls(p) {
-		if fd.Recv == nil || recvTypeName(fd.Recv.List[0].Type) != "Document" || fd.Type.Results == nil || len(fd.Type.Results.List) != 1 {
-			continue
-		}
-		if t := info.TypeOf(fd.Type.Results.List[0].Type); t == nil || t.String() != "bool" {
-			continue
-		}
-		if len(fd.Body.List) == 1 && fd.Type.Params.NumFields() == 2 {
-			preds[fd.Name.Name] = fd
-		}
-	}
-	var exprs []ast.Expr
-	var names []string
-	for nm, fd := range preds {
-		if e := lastReturnExpr(fd); e != nil {
-			exprs = append(exprs, e)
-			names = append(names, nm)
-		}
-	}
-	if len(exprs) != 3 {
-		c.undec("C17.R3", p.PkgPath+"|edit-predicates", "", fmt.Sprintf("expected three single-expression edit predicates on Document (range, text) → bool, found %v", names))
-	} else {
-		atomSet := map[string]bool{}
-		var atoms []string
-		for _, e := range exprs {
-			for _, a := range boolAtoms(e) {
-				if !atomSet[a] {
-					atomSet[a] = true
-					atoms = append(atoms, a)
-				}
+	// Which edit primitive Document.Apply calls for which kind of change, read off its paths (predicate helpers are
+	// looked into, so `if d.isInsert(r, text)` and an inline `switch` are the same thing): Insert only for an empty
+	// range with text, Delete only for a non-empty range without text, Overwrite only for a non-empty range with text —
+	// and each of the three is reachable. An edit the editor sent is then applied by exactly the matching primitive.
+	if apFd != nil {
+		decls := map[types.Object]*ast.FuncDecl{}
+		for _, fd := range allFuncDecls(p) {
+			if fd != apFd {
+				decls[info.Defs[fd.Name]] = fd
 			}
 		}
-		// identify the atoms
-		lineEq, colEq, textEmpty := "", "", ""
-		for _, a := range atoms {
-			switch {
-			case strings.Contains(a, ".Line") && strings.Count(a, ".Line") == 2:
-				lineEq = a
-			case strings.Contains(a, ".Character") && strings.Count(a, ".Character") == 2:
-				colEq = a
-			case strings.Contains(a, `""`):
-				textEmpty = a
-			}
-		}
-		if len(atoms) != 3 || lineEq == "" || colEq == "" || textEmpty == "" {
-			c.undec("C17.R3", p.PkgPath+"|edit-predicates", "", fmt.Sprintf("the edit predicates are not boolean combinations of the three expected atoms: %v", atoms))
+		den := &denum{info: info, pkg: p.Types, inits: map[types.Object]ast.Expr{}, limit: 20000, opaqueLoops: true, decls: decls}
+		den.finish(den.run(apFd.Body.List, []dstate{{env: map[types.Object]ast.Expr{}}}))
+		key := p.PkgPath + "|edit-predicates-partition"
+		if den.undecided != "" {
+			c.undec("C17.R3", key, c.pos(apFd.Pos()), "Document.Apply contains "+den.undecided)
 		} else {
-			okPart := true
-			why := ""
-			for _, asg := range assignments(atoms) {
-				n := 0
-				var which []string
-				for i, e := range exprs {
-					if evalBool(e, asg) {
-						n++
-						which = append(which, names[i])
+			prim := map[string]bool{"Insert": true, "Delete": true, "Overwrite": true}
+			seen := map[string]bool{}
+			why, undec := "", ""
+			for _, pth := range den.paths {
+				called := ""
+				var nodes []ast.Node
+				for _, st := range pth.Trace {
+					nodes = append(nodes, st)
+				}
+				if pth.Ret != nil {
+					nodes = append(nodes, pth.Ret)
+				}
+				for _, nd := range nodes {
+					ast.Inspect(nd, func(m ast.Node) bool {
+						if call, ok := m.(*ast.CallExpr); ok {
+							if fn := calleeOf(info, call); fn != nil && fn.Pkg() == p.Types && prim[fn.Name()] {
+								if sig := fn.Type().(*types.Signature); sig.Recv() != nil && strings.HasSuffix(sig.Recv().Type().String(), "Document") {
+									called = fn.Name()
+								}
+							}
+						}
+						return true
+					})
+				}
+				if called == "" {
+					continue
+				}
+				seen[called] = true
+				// what the path knows about the range and the text
+				lineEq, colEq, posEq, textEmpty := 0, 0, 0, 0 // 0 unknown, 1 true, -1 false
+				set := func(v *int, b bool) {
+					if b {
+						*v = 1
+					} else {
+						*v = -1
 					}
 				}
-				emptyRange := asg[lineEq] && asg[colEq]
-				nothing := emptyRange && asg[textEmpty]
-				if n > 1 {
-					okPart = false
-					why = fmt.Sprintf("with %v the predicates %v overlap", asg, which)
+				for _, pc := range pth.Conds {
+					be, ok := ast.Unparen(pc.Expr).(*ast.BinaryExpr)
+					if !ok || (be.Op != token.EQL && be.Op != token.NEQ) {
+						continue
+					}
+					eq := pc.Val == (be.Op == token.EQL)
+					x, y := types.ExprString(den.deref(be.X, pth.Env)), types.ExprString(den.deref(be.Y, pth.Env))
+					both := x + " " + y
+					switch {
+					case strings.Count(both, ".Line") == 2 && strings.Contains(both, "Start") && strings.Contains(both, "End"):
+						set(&lineEq, eq)
+					case strings.Count(both, ".Character") == 2 && strings.Contains(both, "Start") && strings.Contains(both, "End"):
+						set(&colEq, eq)
+					case strings.HasSuffix(x, ".Start") && strings.HasSuffix(y, ".End") || strings.HasSuffix(x, ".End") && strings.HasSuffix(y, ".Start"):
+						set(&posEq, eq)
+					case x == `""` || y == `""`:
+						set(&textEmpty, eq)
+					case (x == "0" || y == "0") && strings.Contains(both, "len("):
+						set(&textEmpty, eq)
+					}
 				}
-				if n == 0 && !nothing {
-					okPart = false
-					why = fmt.Sprintf("with %v no predicate holds: the edit is silently dropped", asg)
+				empty := 0
+				switch {
+				case posEq != 0:
+					empty = posEq
+				case lineEq == 1 && colEq == 1:
+					empty = 1
+				case lineEq == -1 || colEq == -1:
+					empty = -1
+				}
+				want := map[string][2]int{"Insert": {1, -1}, "Delete": {-1, 1}, "Overwrite": {-1, -1}}[called]
+				switch {
+				case empty == 0 || textEmpty == 0:
+					undec = fmt.Sprintf("a path calls %s without having decided whether the range is empty (%d) and whether the text is empty (%d)", called, empty, textEmpty)
+				case empty != want[0] || textEmpty != want[1]:
+					why = fmt.Sprintf("%s is called for a range that is %s with a text that is %s", called, map[int]string{1: "empty", -1: "not empty"}[empty], map[int]string{1: "empty", -1: "not empty"}[textEmpty])
 				}
 			}
-			c.check(okPart, "C17.R3", p.PkgPath+"|edit-predicates-partition", c.pos(preds[names[0]].Pos()), "8 truth assignments: exactly one predicate holds, except for the empty edit",
-				"the insert/delete/overwrite predicates do not partition the edits: "+why)
+			for nm := range prim {
+				if !seen[nm] && why == "" {
+					why = "no path of Document.Apply calls " + nm + ": such edits are silently dropped"
+				}
+			}
+			switch {
+			case why != "":
+				c.viol("C17.R3", key, c.pos(apFd.Pos()), "the insert/delete/overwrite decision of Document.Apply does not match the edits: "+why)
+			case undec != "":
+				c.undec("C17.R3", key, c.pos(apFd.Pos()), undec)
+			default:
+				c.ok("C17.R3", key, c.pos(apFd.Pos()), "Insert ⇔ empty range with text, Delete ⇔ non-empty range without text, Overwrite ⇔ non-empty range with text, on every path")
+			}
 		}
 	}
 
@@ -388,16 +468,15 @@ func runC17(c *Ctx) {
 
 	// R5 ------------------------------------------------------------
 	if fd := findFunc(p, "DocumentContents", "Apply"); fd != nil {
-		fc := newFnCFG(fd.Body, info)
 		n := 0
 		okL := true
-		directNodes(fd.Body, func(x ast.Node) bool {
+		ast.Inspect(fd.Body, func(x ast.Node) bool {
 			switch x := x.(type) {
 			case *ast.IndexExpr:
 				if se, ok := x.X.(*ast.SelectorExpr); ok {
 					if _, isMap := info.TypeOf(se).Underlying().(*types.Map); isMap {
 						n++
-						if len(normHeld(fc.heldAt(x), accessIsWrite(fd.Body, se))) == 0 {
+						if len(normHeld(heldAtDeep(p, fd, x), accessIsWrite(fd.Body, se))) == 0 {
 							okL = false
 						}
 					}
@@ -405,7 +484,7 @@ func runC17(c *Ctx) {
 			case *ast.CallExpr:
 				if se, ok := x.Fun.(*ast.SelectorExpr); ok && se.Sel.Name == "Apply" {
 					n++
-					if len(normHeld(fc.heldAt(x), true)) == 0 {
+					if len(normHeld(heldAtDeep(p, fd, x), true)) == 0 {
 						okL = false
 					}
 				}
@@ -422,6 +501,12 @@ func runC17(c *Ctx) {
 
 // isRangeMutator: the callee assigns fields of its range parameter (normalisation).
 func isRangeMutator(c *Ctx, p interface{}, fn *types.Func) bool {
+	return rangeMutatorDepth(c, fn, 0)
+}
+
+// rangeMutatorDepth: the function assigns to a .Line / .Character field, directly or through a package-local helper it
+// hands (the address of) a position to.
+func rangeMutatorDepth(c *Ctx, fn *types.Func, depth int) bool {
 	pk := c.pkg("cmd/templ/lspcmd/proxy")
 	for _, fd := range allFuncDecls(pk) {
 		if pk.TypesInfo.Defs[fd.Name] != types.Object(fn) {
@@ -429,10 +514,30 @@ func isRangeMutator(c *Ctx, p interface{}, fn *types.Func) bool {
 		}
 		res := false
 		ast.Inspect(fd.Body, func(n ast.Node) bool {
-			if as, ok := n.(*ast.AssignStmt); ok {
-				for _, l := range as.Lhs {
+			switch x := n.(type) {
+			case *ast.AssignStmt:
+				for _, l := range x.Lhs {
 					if se, ok := l.(*ast.SelectorExpr); ok && (se.Sel.Name == "Line" || se.Sel.Name == "Character") {
 						res = true
+					}
+				}
+			case *ast.CallExpr:
+				if depth < 2 {
+					if cal := calleeOf(pk.TypesInfo, x); cal != nil && cal.Pkg() == pk.Types && types.Object(cal) != types.Object(fn) {
+						takesPos := false
+						for _, a := range x.Args {
+							if ue, ok := ast.Unparen(a).(*ast.UnaryExpr); ok && ue.Op == token.AND {
+								takesPos = true
+							}
+							if t := pk.TypesInfo.TypeOf(a); t != nil {
+								if _, isPtr := t.(*types.Pointer); isPtr {
+									takesPos = true
+								}
+							}
+						}
+						if takesPos && rangeMutatorDepth(c, cal, depth+1) {
+							res = true
+						}
 					}
 				}
 			}
@@ -533,4 +638,18 @@ func asyncHandlerKeepsOrder(c *Ctx, rule string) {
 		return true
 	})
 	c.check(waits, rule, funcKey(p, fd)+"|waits-for-previous-message", c.pos(fd.Pos()), "the goroutine first receives from the previous message's gate", "the per-message goroutine no longer waits for the previous message before handling its own")
+}
+
+// enclosingBinary: the innermost binary expression of body that has id as a direct operand.
+func enclosingBinary(body *ast.BlockStmt, id *ast.Ident) *ast.BinaryExpr {
+	var out *ast.BinaryExpr
+	ast.Inspect(body, func(n ast.Node) bool {
+		if be, ok := n.(*ast.BinaryExpr); ok {
+			if ast.Unparen(be.X) == ast.Expr(id) || ast.Unparen(be.Y) == ast.Expr(id) {
+				out = be
+			}
+		}
+		return true
+	})
+	return out
 }
